@@ -346,12 +346,12 @@ macro_rules! raw_impl {
             const NAME: &'static str = $name;
             const DROPPABLE: bool = false;
             fn make(id: u32) -> Self {
-                // arbitrary generated bit pattern with the identity in the low 5 bits
+                // arbitrary generated bit pattern with the identity in the low 6 bits
                 let hi = mix(id, 7) as u128 | ((mix(id, 8) as u128) << 64);
-                ((hi & !31u128) | (id as u128 & 31)) as $t
+                ((hi & !63u128) | (id as u128 & 63)) as $t
             }
             fn id(&self) -> u32 {
-                (*self as u128 & 31) as u32
+                (*self as u128 & 63) as u32
             }
             fn verify(&self) -> bool {
                 *self == <$t as Payload>::make(Payload::id(self))
